@@ -96,6 +96,9 @@ theorem getVal_setVal_self (s : App) (v : Val) : (s.setVal v).getVal v.op = some
 theorem getVal_setVal_ne (s : App) (v : Val) (op : Nat) (h : op ≠ v.op) : (s.setVal v).getVal op = s.getVal op := by
   simp only [getVal, setVal]; exact find_insertVal_ne v op s.vals h
 
+theorem getVal_congr (a b : App) (h : a.vals = b.vals) (op : Nat) : a.getVal op = b.getVal op := by
+  simp [getVal, h]
+
 theorem getVal_op (s : App) (op : Nat) (v : Val) (h : s.getVal op = some v) : v.op = op := by
   unfold getVal at h
   have := List.find?_some h
